@@ -61,6 +61,7 @@ package s2
 //@ func (c Cap) Expanded(distance s1.Angle) Cap
 //@   fpcmp
 //@   ensures [empty-stays-empty] c.IsEmpty() ==> result.IsEmpty()
+//@   ensures [centre-kept] !c.IsEmpty() ==> vcSame(result.center, c.center)
 
 //@ property C19 C10
 // AddPoint: the new point is a member, old members stay members, the centre of a non-empty cap does not move
